@@ -23,6 +23,9 @@ REDIRECTION_DOMAINS_RE = re.compile(
 )
 YOUTUBE_REDIRECTION_RE = re.compile(r"youtube\.com(?::\d*)?/redirect/?\?", re.I)
 GOOGLE_REDIRECTION_RE = re.compile(r"/url/?\?")
+SURROUNDING_JUNK_RE = re.compile(
+    r"^[\s\x00-\x1f\x7f-\x9f]+|[\s\x00-\x1f\x7f-\x9f]+$", re.UNICODE
+)
 
 
 def infer_redirection(url, recursive=True):
@@ -91,11 +94,14 @@ def infer_redirection_step(url):
             elif potential_target.startswith("/"):
                 # NOTE: an url that cannot be parsed redirects nowhere
                 # NOTE: an url without protocol would lose its host when joined
+                # NOTE: junk in front of the url would hide its protocol when joining
                 try:
+                    trimmed_url = SURROUNDING_JUNK_RE.sub("", url)
+
                     if PROTOCOL_RE.match(CONTROL_CHARS_RE.sub("", url).strip()):
-                        target = urljoin(url, potential_target)
+                        target = urljoin(trimmed_url, potential_target)
                     else:
-                        target = urljoin("http://" + url, potential_target)[7:]
+                        target = urljoin("http://" + trimmed_url, potential_target)[7:]
                 except ValueError:
                     target = None
 
